@@ -1,7 +1,61 @@
 import GluonModel.Sexp
-open GluonModel
+import GluonModel.GcHeap
+open GluonModel GluonModel.GcHeap
+
+def parsePath : Sexp → Option (List Nat)
+  | .list xs => xs.mapM Sexp.toNat?
+  | _ => none
+
+def parseKind : Sexp → Option Kind
+  | .atom "p" => some .plain
+  | .atom "t" => some .thread
+  | .atom "c" => some .cell
+  | .atom "s" => some .shallow
+  | .atom "u" => some .udata
+  | .atom "f" => some .code
+  | _ => none
+
+def parseObj : Sexp → Option Obj
+  | .list [ow, hm, k, es] => do
+    let ow ← parsePath ow
+    let hm ← parsePath hm
+    let k ← parseKind k
+    let es ← parsePath es
+    pure ⟨ow, hm, k, es⟩
+  | _ => none
+
+def parseObjs : Sexp → Option (List Obj)
+  | .list (.atom "objs" :: os) => os.mapM parseObj
+  | _ => none
+
+def natList (xs : List Nat) : String := " ".intercalate (xs.map toString)
+
+def indexOf (xs : List Nat) (x : Nat) : Option Nat :=
+  let rec go : List Nat → Nat → Option Nat
+    | [], _ => none
+    | y :: ys, i => if y = x then some i else go ys (i + 1)
+  go xs 0
+
+/-- `((owner) (edges))…` of the graph below `r` in discovery numbering. -/
+def renderBelow (s : State) (r : Nat) : String :=
+  let b := below s r
+  String.join (b.map fun x =>
+    match s.obj x with
+    | none => " ?"
+    | some o =>
+      let es := if o.kind = .thread then [] else o.edges.filterMap (indexOf b)
+      " ((" ++ natList o.owner ++ ") (" ++ natList es ++ "))")
 
 def handle : List Sexp → String
-  | _ => "unimplemented"
+  | [.atom "clone", sameVm, src, dst, objs] =>
+    match sameVm.toNat?, parsePath src, parsePath dst, parseObjs objs with
+    | some sv, some src, some dst, some os =>
+      let s := State.ofArray os.toArray
+      -- the value is object 0; the cloner's thread is the destination thread
+      match deepClone s dst dst (rgenFor (sv == 1) src dst) false 0 with
+      | some (s', r) => "(ok" ++ renderBelow s' r ++ ")"
+      | none => "refused"
+    | _, _, _, _ => "bad-request"
+  | _ => "bad-request"
 
 def main : IO Unit := driverLoop handle
